@@ -103,6 +103,23 @@ func genC03(r *Rand, tier string, ord int) *Trial {
 		} else {
 			q = genAln(r, ref, alnSpec{W: w, N: n, Prof: -1, SNP: 0.15, Prefix: "q", AllN: 0.05, Dup: 0.05})
 		}
+		if !many && !wide && r.P(0.01) {
+			// different records that a 32-bit checksum of the record takes for one (see checksumTwins)
+			t.Kind = "generated-checksum-twins"
+			a, b := checksumTwins(r, r.Range(40, 64))
+			ref = a
+			if r.P(0.5) {
+				ref = mutate(r, a, profACGT, 0.1)
+			}
+			q = Aln{}
+			for i, k := 0, r.Range(2, 8); i < k; i++ {
+				s := a
+				if i == 1 || (i > 1 && r.Bool()) {
+					s = b
+				}
+				q.Names, q.Seqs = append(q.Names, fmt.Sprintf("q%d", i+1)), append(q.Seqs, s)
+			}
+		}
 		if r.P(0.1) {
 			ref = strings.ToLower(ref)
 		}
@@ -110,6 +127,9 @@ func genC03(r *Rand, tier string, ord int) *Trial {
 	t.Case = Case{Cmd: "snps", Files: map[string]string{"ref": ">ref\n" + ref + "\n", "query": q.FASTA(lay)}}
 	t.Case.Opts.HardGaps = hard
 	t.Runs = genRunCfgs(r, 3)
+	if t.Kind == "generated-checksum-twins" {
+		t.Runs[0].NumCPU = 1 // one worker meets both
+	}
 	if t.Kind == "generated-wide" {
 		wideRuns(t.Runs)
 	}
